@@ -189,7 +189,7 @@ Definition file_truncate (st : kv) (h : handle) (size : Z) : kv * handle * optio
       let st2 := set_cell st1 (h_cell h1) (resize (cell st1 (h_cell h1)) (Z.to_nat size)) in
       let h2 := stamp_clock h1 in
       let '(st3, h3, e) := save st2 h2 in
-      (st3, h3, e).
+      (st3, h3, option_map (wrap (h_path h)) e).
 
 Definition with_open (h : handle) (flag : N) (w : wrapper) : handle :=
   mkH (h_path h) (h_cell h) (h_mode h) (h_mtime h) (h_mode_ov h) (h_mtime_ov h) (h_off h) flag
@@ -314,12 +314,12 @@ Fixpoint kv_rename (fuel : nat) (st : kv) (o n : str) : kv * option err :=
             if str_eqb o n then (st3, None)
             else
               let '(st4, fo1, ok) := f_data st3 fo in
-              if negb ok then (st4, Some (Bare EOTHER))
+              if negb ok then (st4, Some (LinkErr o n EOTHER))
               else
                 (* one transaction: Set new, Set old nil; every Set is attempted, first error reported *)
                 let '(st5, e1) := sset st4 n (Some (mkRec (f_mode fo1) (f_mtime fo1) (h_cell fo1))) in
                 let '(st6, e2) := sset st5 o None in
-                (st6, match e1 with Some e => Some e | None => e2 end)
+                (st6, option_map (wrap_link o n) (match e1 with Some e => Some e | None => e2 end))
           else
             if str_eqb o dot || has_prefix n (o ++ [slash]) then (st3, Some (LinkErr o n EINVAL))
             else match rn with
@@ -329,11 +329,11 @@ Fixpoint kv_rename (fuel : nat) (st : kv) (o n : str) : kv * option err :=
               else
                 let '(st4, fo1, ns) := f_names st3 fo in
                 match ns with
-                | inr e => (st4, Some e)
+                | inr e => (st4, Some (wrap_link o n e))
                 | inl names =>
                   let '(st5, _, e) := set_file st4 n (Some fo1) in
                   match e with
-                  | Some e => (st5, Some e)
+                  | Some e => (st5, Some (wrap_link o n e))
                   | None =>
                     let fix children (st : kv) (l : list str) : kv * option err :=
                       match l with
@@ -348,7 +348,7 @@ Fixpoint kv_rename (fuel : nat) (st : kv) (o n : str) : kv * option err :=
                     let '(st6, e) := children st5 names in
                     match e with
                     | Some e => (st6, Some e)
-                    | None => let '(st7, _, e) := set_file st6 o None in (st7, e)
+                    | None => let '(st7, _, e) := set_file st6 o None in (st7, option_map (wrap_link o n) e)
                     end
                   end
                 end
